@@ -904,3 +904,118 @@ theorem convertImpl_spec {c : Converter Rat} (hc : c.Sound) (q : SQuantity Rat) 
                   rw [← htpq]; exact hlist s hsys
 
 end Cook
+
+namespace Cook
+open Arith
+
+/-! ### `ScaledQuantity::fit` -/
+
+inductive FitOutcome (c : Converter Rat) (q : SQuantity Rat) :
+    SQuantity Rat × Except ConvErr _root_.Unit → Prop where
+  /-- only known units are fitted -/
+  | unknown (h : unitInfo c q = none) : FitOutcome c q (q, .ok ())
+  | failed (e : ConvErr) (he : ConvertFailure c q .sameSystem e) : FitOutcome c q (q, .error e)
+  | fitted (q' : SQuantity Rat) (u nu : Unit Rat) (hu : unitInfo c q = some u)
+      (hr : Restated c q u q' nu)
+      (hlist : nu ∈ ((c.best u.pq).conversions (u.system.getD c.defaultSystem)).unitsOf
+                ∨ (u.system = none ∧ nu = u)) :
+      FitOutcome c q (q', .ok ())
+
+theorem convertImpl_same_fit {c : Converter Rat} (hc : c.Sound) (q : SQuantity Rat) :
+    FitOutcome c q (convertImpl c q .sameSystem) := by
+  have h := convertImpl_spec hc q .sameSystem (by intro x hx; cases hx)
+  generalize convertImpl c q .sameSystem = r at h
+  cases h with
+  | failed e he => exact .failed e he
+  | converted q' u nu hu hr _ hsame _ => exact .fitted q' u nu hu hr (Or.inl (hsame rfl))
+
+theorem fit_spec {c : Converter Rat} (hc : c.Sound) (q : SQuantity Rat) :
+    FitOutcome c q (fit c q) := by
+  unfold fit
+  cases hu : unitInfo c q with
+  | none => exact .unknown hu
+  | some u =>
+    simp only
+    split
+    · have hff := fitFraction_spec hc q u hu u.system
+      generalize fitFraction c q u u.system = r at hff
+      cases hff with
+      | failed t hv _ => exact .failed _ (.textValue u t hu hv)
+      | declined => exact convertImpl_same_fit hc q
+      | fitted q' nu hr hlist hnone =>
+        simp only
+        refine .fitted q' u nu hu hr ?_
+        cases hsys : u.system with
+        | none => exact Or.inr ⟨rfl, (hnone hsys).2⟩
+        | some s => exact Or.inl (by simpa using hlist s hsys)
+    · exact convertImpl_same_fit hc q
+
+/-! ### `ScaledRecipe::convert` -/
+
+/-- the errors one optional quantity contributes -/
+def convErrors (c : Converter Rat) (to : System) : Option (SQuantity Rat) → List ConvErr
+  | none => []
+  | some q =>
+    match (convertImpl c q (.best to)).2 with
+    | .ok _ => []
+    | .error e => [e]
+
+/-- the quantity one optional quantity becomes -/
+def convResult (c : Converter Rat) (to : System) : Option (SQuantity Rat) → Option (SQuantity Rat)
+  | none => none
+  | some q => some (convertImpl c q (.best to)).1
+
+theorem convStep_fst (c : Converter Rat) (to : System) (q : SQuantity Rat) :
+    (convStep c to q).1 = (convertImpl c q (.best to)).1 := by
+  unfold convStep; split <;> rfl
+
+theorem convStep_snd (c : Converter Rat) (to : System) (q : SQuantity Rat) :
+    (convStep c to q).2 = convErrors c to (some q) := by
+  unfold convStep convErrors; split <;> simp_all
+
+theorem convOpt_fst (c : Converter Rat) (to : System) (q : Option (SQuantity Rat)) :
+    (convOpt c to q).1 = convResult c to q := by
+  cases q <;> simp [convOpt, convResult, convStep_fst]
+
+theorem convOpt_snd (c : Converter Rat) (to : System) (q : Option (SQuantity Rat)) :
+    (convOpt c to q).2 = convErrors c to q := by
+  cases q
+  · rfl
+  · simp [convOpt, convStep_snd]
+
+theorem recipeConvert_spec (c : Converter Rat) (to : System) (r : ScaledRecipe Rat) :
+    (recipeConvert c to r).1.sections = r.sections ∧
+    (recipeConvert c to r).1.cookware = r.cookware ∧
+    (recipeConvert c to r).1.ingredients =
+      r.ingredients.map (fun i => { i with quantity := convResult c to i.quantity }) ∧
+    (recipeConvert c to r).1.timers =
+      r.timers.map (fun t => { t with quantity := convResult c to t.quantity }) ∧
+    (recipeConvert c to r).1.inlineQuantities =
+      r.inlineQuantities.map (fun q => (convertImpl c q (.best to)).1) ∧
+    (recipeConvert c to r).2 =
+      (r.ingredients.map (fun i => convErrors c to i.quantity)).flatten ++
+      (r.timers.map (fun t => convErrors c to t.quantity)).flatten ++
+      (r.inlineQuantities.map (fun q => convErrors c to (some q))).flatten := by
+  have hi1 : (fun x : Ingredient (Value Rat) × List ConvErr => x.1) ∘ convIngredient c to =
+      fun i => { i with quantity := convResult c to i.quantity } := by
+    funext i; simp [convIngredient, convOpt_fst]
+  have hi2 : (fun x : Ingredient (Value Rat) × List ConvErr => x.2) ∘ convIngredient c to =
+      fun i => convErrors c to i.quantity := by
+    funext i; simp [convIngredient, convOpt_snd]
+  have ht1 : (fun x : Timer (Value Rat) × List ConvErr => x.1) ∘ convTimer c to =
+      fun t => { t with quantity := convResult c to t.quantity } := by
+    funext t; simp [convTimer, convOpt_fst]
+  have ht2 : (fun x : Timer (Value Rat) × List ConvErr => x.2) ∘ convTimer c to =
+      fun t => convErrors c to t.quantity := by
+    funext t; simp [convTimer, convOpt_snd]
+  have hq1 : (fun x : SQuantity Rat × List ConvErr => x.1) ∘ convStep c to =
+      fun q => (convertImpl c q (.best to)).1 := by
+    funext q; simp [convStep_fst]
+  have hq2 : (fun x : SQuantity Rat × List ConvErr => x.2) ∘ convStep c to =
+      fun q => convErrors c to (some q) := by
+    funext q; simp [convStep_snd]
+  unfold recipeConvert
+  simp only [List.map_map, hi1, hi2, ht1, ht2, hq1, hq2]
+  exact ⟨trivial, trivial, trivial, trivial, trivial, trivial⟩
+
+end Cook
